@@ -4,8 +4,72 @@ From Verif Require Import C27.Model C27.Proof.
 Import ListNotations.
 Open Scope Z_scope.
 
-(* non-vacuity: a 3-chunk source "x := 1\n" "/* a\nb */ y := u\n" "\n" "z := v" read by EvalReader;
-   the token u (chunk 1, offset 14) is reported at 3:11, the token v (chunk 3, offset 5) at 5:6 *)
+(* For every history of AddFile(base,size,starting line)/AddLine/SetLines (panicking AddFile calls leave the set
+   unchanged) and every Pos p, the fork's FileSet.PositionFor as written (last-file cache, binary search over
+   files, binary search over the line table, line shift) returns the documented go/token position of the
+   unique file containing p (Line = number of line starts <= offset, Column = offset - greatest such start + 1,
+   file found by linear scan) with Line shifted by that file's starting line; the zero Position if no file
+   contains p.  The file set itself is unchanged (only the cache moves). *)
+Theorem C27_fileset_offset : forall ops p, let s := fst (frun new_fileset ops) in
+  exists s', fork_position_for s p = Some (s', spec_position_for s p) /\
+             s_files s' = s_files s /\ s_base s' = s_base s.
+Proof. exact fileset_offset. Qed.
+Print Assumptions C27_fileset_offset.
+
+(* the same for any sequence of queries, whatever the cache holds in between *)
+Theorem C27_fileset_queries : forall ops ps, let s := fst (frun new_fileset ops) in
+  fqueries s ps = Some (map (spec_position_for s) ps).
+Proof. exact fileset_queries. Qed.
+Print Assumptions C27_fileset_queries.
+
+(* file selection: in a reachable file set at most one file contains a given position *)
+Theorem C27_file_selection_unique : forall ops i j fi fj p, let s := fst (frun new_fileset ops) in
+  nth_error (s_files s) i = Some fi -> nth_error (s_files s) j = Some fj ->
+  contains fi p = true -> contains fj p = true -> i = j.
+Proof. exact files_disjoint. Qed.
+Print Assumptions C27_file_selection_unique.
+
+(* EvalReader/EvalFile, for every interpreter state reachable by any file-set history followed by any number of
+   earlier sources, every list of chunks and every byte k at or after firstToken of chunk ci: the reported
+   position has the file name given to the parser, line = 1 + number of '\n' before the byte in the
+   concatenated input, and — when the chunks before ci end at a line end, as ReadMultiline delivers them —
+   column = 1 + bytes since the last '\n'. *)
+Theorem C27_line_is_true_line : forall st name cs st' recs ci k c pos,
+  reachable st -> run_source st Reader name cs = Some (st', recs) ->
+  nth_error cs ci = Some c -> c_first c <= Z.of_nat k -> (k < length (c_src c))%nat ->
+  report st' recs ci k = Some pos ->
+  p_name pos = name /\
+  p_line pos = 0 + true_line (input_of cs) (chunk_offset cs ci + k) /\
+  (Forall ends_nl (firstn ci cs) -> p_col pos = true_col (input_of cs) (chunk_offset cs ci + k)).
+Proof. intros st name cs. exact (report_true st Reader name cs). Qed.
+Print Assumptions C27_line_is_true_line.
+
+(* Interp.Repl does not reset Globals.Line: the reported line is the counter's value at the start of the source
+   (0 for a fresh interpreter) plus the true line; name and column as above *)
+Theorem C27_repl_line_is_true_line : forall st name cs st' recs ci k c pos,
+  reachable st -> run_source st Repl name cs = Some (st', recs) ->
+  nth_error cs ci = Some c -> c_first c <= Z.of_nat k -> (k < length (c_src c))%nat ->
+  report st' recs ci k = Some pos ->
+  p_name pos = name /\
+  p_line pos = i_line st + true_line (input_of cs) (chunk_offset cs ci + k) /\
+  (Forall ends_nl (firstn ci cs) -> p_col pos = true_col (input_of cs) (chunk_offset cs ci + k)).
+Proof. intros st name cs. exact (report_true st Repl name cs). Qed.
+Print Assumptions C27_repl_line_is_true_line.
+
+(* reported lines never decrease along the source (either mode) *)
+Theorem C27_lines_monotone : forall st m name cs st' recs ci k c pos ci' k' c' pos',
+  reachable st -> run_source st m name cs = Some (st', recs) ->
+  nth_error cs ci = Some c -> c_first c <= Z.of_nat k -> (k < length (c_src c))%nat ->
+  nth_error cs ci' = Some c' -> c_first c' <= Z.of_nat k' -> (k' < length (c_src c'))%nat ->
+  report st' recs ci k = Some pos -> report st' recs ci' k' = Some pos' ->
+  (ci < ci')%nat \/ (ci = ci' /\ (k <= k')%nat) ->
+  p_line pos <= p_line pos'.
+Proof. exact lines_monotone. Qed.
+Print Assumptions C27_lines_monotone.
+
+(* ---- non-vacuity ---- *)
+(* a 4-chunk source  "x := 1\n"  "/* a\nb */ y := u\n"  "\n"  "z := v"  read by EvalReader on an interpreter whose
+   counter stands at 7: u (chunk 1, byte 15) is reported at 3:11, v (chunk 3, byte 5) at 5:6, Globals.Line ends at 4 *)
 Definition ex_chunks : list chunk :=
   [ mkChunk (bytes_of 0x178203a3d20310a) 0;
     mkChunk (bytes_of 0x12f2a20610a62202a2f2079203a3d20750a) 10;
@@ -13,8 +77,40 @@ Definition ex_chunks : list chunk :=
     mkChunk (bytes_of 0x17a203a3d2076) 0 ].
 Example C27_example_reader :
   match run_source (mkI 7 new_fileset) Reader 1%N ex_chunks with
-  | Some (st, recs) =>
-      (report st recs 1 15, report st recs 3 5, i_line st)
+  | Some (st, recs) => (report st recs 1 15, report st recs 3 5, i_line st)
   | None => (None, None, -1)
   end = (Some (mkPos 1 15 3 11), Some (mkPos 1 5 5 6), 4).
+Proof. vm_compute. reflexivity. Qed.
+
+(* the hypotheses of C27_line_is_true_line hold for that source and both tokens *)
+Example C27_example_hypotheses :
+  reachable (mkI 7 new_fileset) /\
+  Forall ends_nl (firstn 3 ex_chunks) /\
+  true_line (input_of ex_chunks) (chunk_offset ex_chunks 1 + 15) = 3 /\
+  true_col (input_of ex_chunks) (chunk_offset ex_chunks 1 + 15) = 11 /\
+  true_line (input_of ex_chunks) (chunk_offset ex_chunks 3 + 5) = 5 /\
+  true_col (input_of ex_chunks) (chunk_offset ex_chunks 3 + 5) = 6.
+Proof.
+  split; [exact (reach_init 7 [])|]. split; [|vm_compute; repeat split; reflexivity].
+  change (firstn 3 ex_chunks) with
+    [mkChunk (bytes_of 0x178203a3d20310a) 0; mkChunk (bytes_of 0x12f2a20610a62202a2f2079203a3d20750a) 10; mkChunk [10%N] (-1)].
+  constructor; [right; exists (bytes_of 0x178203a3d2031); vm_compute; reflexivity|].
+  constructor; [right; exists (bytes_of 0x12f2a20610a62202a2f2079203a3d2075); vm_compute; reflexivity|].
+  constructor; [right; exists []; reflexivity|constructor].
+Qed.
+
+(* first chunk of a reader with a comment prefix on the token's own line and a line before it:
+   "// c\n/* d */ q := w\n"  (firstToken 13): w at byte 18 is reported at 2:14 *)
+Example C27_example_first_chunk :
+  match run_source (mkI 0 new_fileset) Reader 1%N [mkChunk (bytes_of 0x12f2f20630a2f2a2064202a2f2071203a3d20770a) 13] with
+  | Some (st, recs) => report st recs 0 18
+  | None => None
+  end = Some (mkPos 1 13 2 14).
+Proof. vm_compute. reflexivity. Qed.
+
+(* a file set with starting lines 100 and 7: positions of both files, the gap before the explicit base, NoPos *)
+Example C27_example_fileset :
+  let s := fst (frun new_fileset [FAdd 1 (-1) 10 100; FAddLine 0 4; FAdd 2 20 5 7; FSetLines 1 [0; 2]; FAdd 3 3 1 0]) in
+  fqueries s [6; 1; 12; 23; 0; 26] =
+  Some [mkPos 1 5 102 2; mkPos 1 0 101 1; no_pos; mkPos 2 3 9 2; no_pos; no_pos].
 Proof. vm_compute. reflexivity. Qed.
